@@ -389,7 +389,9 @@ func c12Issue(c *imapclient.Client, cmd *c12cmd) {
 		if cmd.Kind == "uidfetch" {
 			x = c.Fetch(imap.UIDSetNum(cmd.UID), &imap.FetchOptions{Flags: true})
 		} else {
-			x = c.Store(imap.UIDSetNum(cmd.UID), &imap.StoreFlags{Op: imap.StoreFlagsAdd, Flags: []imap.Flag{imap.FlagSeen}}, nil)
+			// (also .SILENT: the server may still answer with FETCH data - CONDSTORE's MODSEQ, or flags changed by
+			// someone else, RFC 9051 6.4.6 - and that data answers this command)
+			x = c.Store(imap.UIDSetNum(cmd.UID), &imap.StoreFlags{Op: imap.StoreFlagsAdd, Silent: cmd.N%2 == 0, Flags: []imap.Flag{imap.FlagSeen}}, nil)
 		}
 		cmd.wait = func() string {
 			msgs, err := x.Collect()
